@@ -27,7 +27,7 @@ theorem toplevel_rests (ρ : List FunDef) (fuel : Nat) (prog : List Node) (s : S
 /-- non-vacuity: a program that throws from a callback inside a function inside a loop inside a try
     still ends in the resting shape, and the state really was perturbed on the way (heap grew). -/
 example :
-    let ρ : List FunDef := [⟨[1], .block [.call false (.const 0) [.id 0 1]], none⟩]
+    let ρ : List FunDef := [{ params := [1], body := .block [.call false (.const 0) [.id 0 1]] }]
     let s : St := { St.init [.native 7, .int 3] with fault := ⟨0, .nonStd, false⟩ }
     let r := run ρ 50 (.seq [.whileN (.const 1) (.block [.brk])]) s
     r.2.shape = ([1], 1, 0) := by decide
